@@ -185,10 +185,10 @@ def conclude(a, cfg, tier, seed, results, native, t0):
                     canaries[o["name"]] = "refuted"
                 continue
             if o["kind"] == "reach":
-                if o["status"] == "reachable":
-                    reach[o["name"]] = "reachable"
-                else:
-                    reach.setdefault(o["name"], o["status"])
+                cur = reach.get(o["name"])
+                if o["status"] == "reachable" or cur is None or (cur == "reach-unknown" and o["status"] == "unreachable"):
+                    if cur != "reachable":
+                        reach[o["name"]] = o["status"]
                 continue
             produced[mode].add(o["name"])
             row = dict(o)
@@ -268,7 +268,7 @@ def conclude(a, cfg, tier, seed, results, native, t0):
         if st != "refuted":
             faults.append("canary %s was not refuted: the refutation path of the checker is not working" % name)
     for name, st in reach.items():
-        if st != "reachable":
+        if st == "unreachable":
             faults.append("%s: preconditions are not satisfiable (vacuous contract)" % name)
     for cid in cfg.get("canary_contracts", []):
         if not any(k.startswith(cid + "/canary.") for k in canaries):
